@@ -186,8 +186,13 @@ where
                                     let semaphore = semaphore.clone();
                                     exec::spawn(async move {
                                         let _permit = semaphore.acquire().await.ok();
-                                        let result = fun_task(argument).await;
-                                        let _ = result_tx.send(result);
+                                        tokio::select! {
+                                            biased;
+                                            () = result_tx.closed() => (),
+                                            result = fun_task(argument) => {
+                                                let _ = result_tx.send(result);
+                                            }
+                                        }
                                     }.in_current_span());
                                 }
                                 Ok(None) => break,
